@@ -19,6 +19,13 @@
       module-level name stays local), hence `C05_funcdef_effect_depends_on_context_only`,
       `C05_funcdefs_order_independent` (any permutation of the module-level function definitions
       gives the same IR under every key) and `C05_funcdefs_unrelated` (added definitions).
+    * UNRELATED DEFINITION NAMED LIKE A PARAMETER (all function bodies): `C05_definition_named_like_parameter_is_unrelated`
+      (two module scopes that differ only under names that are parameters give the function the same
+      outcome, IR and diagnostics — every nested scope included, `del` of such a parameter excluded:
+      `C05_cex_del_of_parameter`), `C05_parameter_of_any_kind_hides_module_symbol`,
+      `C05_adding_or_removing_module_symbol_named_like_parameter`; every OTHER way of binding a local
+      name does not hide the module-level symbol on the pinned code: `C05_cex_local_target_does_not_hide`,
+      `C05_cex_unregistered_binder_does_not_hide`, `C05_cex_static_method_through_parameter`.
     * HISTORY (several analyses in one process; multi-file programs = roots ⊂ keys):
       `C05_cex_history_carried_import_ir` (IRs of a followed import surviving into the next analysis
       change its results), `C05_tree_history_independent` (+ `_ok`): in the tree fragment they do not.
@@ -29,6 +36,7 @@ import RattrProofs.Lemmas.ResultsDepthOne
 import RattrProofs.Lemmas.ResultsTree
 import RattrProofs.Lemmas.ResultsTreeCheck
 import RattrProofs.Lemmas.FileOrder
+import RattrProofs.Lemmas.VisitHide
 
 namespace Rattr.C05
 open Rattr Rattr.Results Rattr.Cex
@@ -390,5 +398,174 @@ example : TreeLike Pchain ∧ CidArgs Pchain ∧
     getsOf Pchain (carry (fun k => decide (1 ≤ k)) σchain (storeOf Pchain σchain [3, 2, 1, 0])) [0] 0 =
       getsOf Pchain σchain [0] 0 :=
   ⟨Pchain_treeLike, Schain_hyps0.cid, by decide +kernel⟩
+
+/-! ### unrelated definitions whose NAME equals a name the function binds itself
+
+"Adding or removing functions it does not transitively call": a module-level definition named like a
+PARAMETER of a function (of any kind: positional-only, positional-or-keyword, `*args`, keyword-only,
+`**kwargs`) is such unrelated code — the parameter is what the name means everywhere in the function.
+The module-level definitions reach the function analyser as the root context, so "adding / removing /
+replacing that definition" is "another root context that agrees on every other name". -/
+
+/-- UNRELATED CODE, all function bodies: two root contexts that agree on every name which is not a
+parameter of the function give `FunctionAnalyser(fn, root).analyse()` the same outcome, the same IR
+(gets, sets, dels, calls WITH their resolved targets — what result generation inlines from) and the
+same diagnostics; in the body and in every nested scope of it (lambdas, comprehensions, nested defs,
+`sorted` keys, `defaultdict` factories). Hypothesis: the body never `del`s a parameter
+(`C05_cex_del_of_parameter` shows it is needed). -/
+theorem C05_definition_named_like_parameter_is_unrelated (env : FnA.Env) (mn : Str) (root₁ root₂ : Context)
+    (ps : Params) (body : List Node)
+    (hagree : ∀ x, x ∉ ps.all → Context.get? root₁ x = Context.get? root₂ x)
+    (hnd : ∀ nd ∈ body, FnA.NoDel ps.all nd) :
+    FnA.Res.noCtx (FnA.analyse env mn root₂ ps body) = FnA.Res.noCtx (FnA.analyse env mn root₁ ps body) :=
+  FnA.analyse_hidden env mn root₁ root₂ ps body ps.all (fun _ h => h) hagree hnd
+
+/-- … for ONE parameter `x`, of whatever kind — positional-only included. -/
+theorem C05_parameter_of_any_kind_hides_module_symbol (env : FnA.Env) (mn : Str) (root₁ root₂ : Context)
+    (ps : Params) (body : List Node) (x : Str)
+    (hx : x ∈ ps.posonly ∨ x ∈ ps.args ∨ ps.vararg = some x ∨ x ∈ ps.kwonly ∨ ps.kwarg = some x)
+    (hagree : ∀ y, y ≠ x → Context.get? root₁ y = Context.get? root₂ y)
+    (hnd : ∀ nd ∈ body, FnA.NoDel [x] nd) :
+    FnA.Res.noCtx (FnA.analyse env mn root₂ ps body) = FnA.Res.noCtx (FnA.analyse env mn root₁ ps body) :=
+  FnA.analyse_hidden env mn root₁ root₂ ps body [x]
+    (fun h hh => by
+      have : h = x := by simpa using hh
+      subst this; exact (FnA.mem_params_all ps h).mpr hx)
+    (fun y hy => hagree y (by simpa using hy)) hnd
+
+/-- … in the form "a definition is added, replaced or removed": the module scope `sc` with the
+binding of a parameter's name set to ANY symbol (a function, a class, an import, a variable), or
+erased, is the same to the function as `sc` itself. -/
+theorem C05_adding_or_removing_module_symbol_named_like_parameter (env : FnA.Env) (mn : Str) (sc : Scope)
+    (ps : Params) (body : List Node) (x : Str) (sym : Sym) (hx : x ∈ ps.all)
+    (hnd : ∀ nd ∈ body, FnA.NoDel [x] nd) :
+    FnA.Res.noCtx (FnA.analyse env mn [Dict.set sc x sym] ps body) = FnA.Res.noCtx (FnA.analyse env mn [sc] ps body) ∧
+    FnA.Res.noCtx (FnA.analyse env mn [Context.eraseKey sc x] ps body) = FnA.Res.noCtx (FnA.analyse env mn [sc] ps body) := by
+  refine ⟨?_, ?_⟩
+  · refine FnA.analyse_hidden env mn [sc] [Dict.set sc x sym] ps body [x] ?_ ?_ hnd
+    · intro h hh
+      have : h = x := by simpa using hh
+      subst this; exact hx
+    · intro y hy
+      have hne : x ≠ y := fun e => hy (by simp [e])
+      simp only [Context.get?, Dict.get?_set_other sc x y sym hne]
+  · refine FnA.analyse_hidden env mn [sc] [Context.eraseKey sc x] ps body [x] ?_ ?_ hnd
+    · intro h hh
+      have : h = x := by simpa using hh
+      subst this; exact hx
+    · intro y hy
+      have hne : x ≠ y := fun e => hy (by simp [e])
+      simp only [Context.get?, Context.get?_eraseKey_other sc x y hne]
+
+/-! #### concrete walks (kernel evaluation of `FnA.analyse`) -/
+
+def cbSym : Sym := fnSym "cb" ["r"]
+/-- a module without / with a module-level `def cb(r)` -/
+def rootNo : Context := [[]]
+def rootCb : Context := [[(s "cb", cbSym)]]
+/-- `cb(v)` -/
+def callCb : Node := .call (nmL "cb") [nmL "v"] [] []
+def stmt (e : Node) : Node := .other (s "Expr") [e]
+/-- the recorded calls with their resolved targets (what result generation follows) -/
+def targetsOf (r : Res) : List (Str × Option Sym) :=
+  match r with
+  | .ok st => st.calls.map fun c => (c.name, c.target)
+  | _ => [(s "<not ok>", none)]
+def walkFn (root : Context) (ps : Params) (body : List Node) : List (Str × Option Sym) :=
+  targetsOf (FnA.analyse envT [] root ps body)
+/-- the parameter's own symbol -/
+def localCb : Option Sym := some (Context.nameSym (s "cb"))
+
+/-- TEST: `def host(cb, /, v): return cb(v)`, `def host(v, *, cb)`, `def host(v, *cb)`,
+`def host(v, **cb)` and `lambda cb, /: cb(v)` inside `def host(v)`: with or without a module-level
+`def cb(r)` the call goes to the parameter. -/
+theorem C05_test_parameter_kinds_hide_module_function :
+    walkFn rootCb ⟨[s "cb"], [s "v"], none, [], none⟩ [.ret [callCb]] = [(s "cb", localCb)] ∧
+    walkFn rootNo ⟨[s "cb"], [s "v"], none, [], none⟩ [.ret [callCb]] = [(s "cb", localCb)] ∧
+    walkFn rootCb ⟨[], [s "v"], none, [s "cb"], none⟩ [.ret [callCb]] = [(s "cb", localCb)] ∧
+    walkFn rootCb ⟨[], [s "v"], some (s "cb"), [], none⟩ [.ret [callCb]] = [(s "cb", localCb)] ∧
+    walkFn rootCb ⟨[], [s "v"], none, [], some (s "cb")⟩ [.ret [callCb]] = [(s "cb", localCb)] ∧
+    walkFn rootCb (prm ["v"]) [.ret [.lam ⟨[s "cb"], [], none, [], none⟩ callCb]] = [(s "cb", localCb)] := by
+  refine ⟨?_, ?_, ?_, ?_, ?_, ?_⟩ <;> decide +kernel
+
+/-- non-vacuity of `C05_definition_named_like_parameter_is_unrelated`: `def host(cb, /, v):
+w = cb; del w; return [cb(x) for x in v]` never deletes a parameter, and the two module scopes
+(without / with `def cb(r)`) agree on every name that is not a parameter. -/
+example : (∀ nd ∈ [Node.assign [.name (s "w") .store] (nmL "cb"), .delete [.name (s "w") .del],
+                   .ret [.comp (s "ListComp") [.call (nmL "cb") [nmL "x"] [] []] [.gen (.name (s "x") .store) (nmL "v") []]]],
+      FnA.NoDel (⟨[s "cb"], [s "v"], none, [], none⟩ : Params).all nd) ∧
+    (∀ x, x ∉ (⟨[s "cb"], [s "v"], none, [], none⟩ : Params).all → Context.get? rootNo x = Context.get? rootCb x) := by
+  refine ⟨?_, ?_⟩
+  · intro nd h
+    simp only [List.mem_cons, List.not_mem_nil, or_false] at h
+    rcases h with rfl | rfl | rfl <;> exact FnA.NoDel.of_noDelB 8 (by decide +kernel)
+  · intro x hx
+    have hne : ¬ s "cb" = x := fun e => hx (by subst e; decide)
+    simp [rootNo, rootCb, Context.get?, Dict.get?, hne]
+
+/-- the hypothesis "never `del`s a parameter" is needed: `def host(cb, v): del cb; cb(v)` — after the
+`del` the name falls through to the module scope, so the module-level `def cb(r)` becomes the target. -/
+theorem C05_cex_del_of_parameter :
+    walkFn rootNo (prm ["cb", "v"]) [.delete [.name (s "cb") .del], stmt callCb] = [(s "cb", none)] ∧
+    walkFn rootCb (prm ["cb", "v"]) [.delete [.name (s "cb") .del], stmt callCb] = [(s "cb", some cbSym)] := by
+  refine ⟨?_, ?_⟩ <;> decide +kernel
+
+/-- DEFECT CLASS (plain `Context.add` never re-binds a name visible outside): a `for` target, a `with`
+target, a local assignment, a walrus, a comprehension target and a nested `def` of the name `cb` —
+alone, the call `cb(v)` goes to the local name; with an unrelated module-level `def cb(r)` it goes to
+THAT function (and is inlined from it), although Python never calls it. -/
+theorem C05_cex_local_target_does_not_hide :
+    -- for cb in fs: cb(v)
+    walkFn rootNo (prm ["v", "fs"]) [.forLoop (.name (s "cb") .store) (nmL "fs") [stmt callCb] []] = [(s "cb", localCb)] ∧
+    walkFn rootCb (prm ["v", "fs"]) [.forLoop (.name (s "cb") .store) (nmL "fs") [stmt callCb] []] = [(s "cb", some cbSym)] ∧
+    -- with fs as cb: cb(v)
+    walkFn rootNo (prm ["v", "fs"]) [.withStmt [.withitem (nmL "fs") [.name (s "cb") .store]] [stmt callCb]] = [(s "cb", localCb)] ∧
+    walkFn rootCb (prm ["v", "fs"]) [.withStmt [.withitem (nmL "fs") [.name (s "cb") .store]] [stmt callCb]] = [(s "cb", some cbSym)] ∧
+    -- cb = fs.pick; return cb(v)
+    walkFn rootNo (prm ["v", "fs"]) [.assign [.name (s "cb") .store] (.attr (nmL "fs") (s "pick") .load), .ret [callCb]] = [(s "cb", localCb)] ∧
+    walkFn rootCb (prm ["v", "fs"]) [.assign [.name (s "cb") .store] (.attr (nmL "fs") (s "pick") .load), .ret [callCb]] = [(s "cb", some cbSym)] ∧
+    -- (cb := fs.pick); cb(v)
+    walkFn rootNo (prm ["v", "fs"]) [stmt (.walrus (.name (s "cb") .store) (.attr (nmL "fs") (s "pick") .load)), stmt callCb] = [(s "cb", localCb)] ∧
+    walkFn rootCb (prm ["v", "fs"]) [stmt (.walrus (.name (s "cb") .store) (.attr (nmL "fs") (s "pick") .load)), stmt callCb] = [(s "cb", some cbSym)] ∧
+    -- [cb(v) for cb in fs]
+    walkFn rootNo (prm ["v", "fs"]) [.ret [.comp (s "ListComp") [callCb] [.gen (.name (s "cb") .store) (nmL "fs") []]]] = [(s "cb", localCb)] ∧
+    walkFn rootCb (prm ["v", "fs"]) [.ret [.comp (s "ListComp") [callCb] [.gen (.name (s "cb") .store) (nmL "fs") []]]] = [(s "cb", some cbSym)] ∧
+    -- def cb(z): z.local_only   /   return cb(v)      (the nested def is a Func of its own, never a callee of the file)
+    walkFn rootNo (prm ["v"]) [.funcDef (s "cb") (prm ["z"]) [stmt (.attr (nmL "z") (s "local_only") .load)], .ret [callCb]] =
+      [(s "cb", some (fnSym "cb" ["z"]))] ∧
+    walkFn rootCb (prm ["v"]) [.funcDef (s "cb") (prm ["z"]) [stmt (.attr (nmL "z") (s "local_only") .load)], .ret [callCb]] =
+      [(s "cb", some cbSym)] := by
+  refine ⟨?_, ?_, ?_, ?_, ?_, ?_, ?_, ?_, ?_, ?_, ?_, ?_⟩ <;> decide +kernel
+
+/-- DEFECT CLASS (bindings the analyser never registers): the name of an `except … as cb` handler, a
+`match` capture and a nested `class cb` are generic nodes to the function analyser — alone, the call
+`cb(v)` has no target at all; with an unrelated module-level `def cb(r)` it goes to that function. -/
+theorem C05_cex_unregistered_binder_does_not_hide :
+    -- try: fs.go / except fs.Err as cb: cb(v)        (ExceptHandler.name is a plain string)
+    walkFn rootNo (prm ["v", "fs"]) [.other (s "Try") [stmt (.attr (nmL "fs") (s "go") .load),
+      .other (s "ExceptHandler") [.attr (nmL "fs") (s "Err") .load, stmt callCb]]] = [(s "cb", none)] ∧
+    walkFn rootCb (prm ["v", "fs"]) [.other (s "Try") [stmt (.attr (nmL "fs") (s "go") .load),
+      .other (s "ExceptHandler") [.attr (nmL "fs") (s "Err") .load, stmt callCb]]] = [(s "cb", some cbSym)] ∧
+    -- match fs.pick: case cb: cb(v)                   (MatchAs.name is a plain string)
+    walkFn rootNo (prm ["v", "fs"]) [.other (s "Match") [.attr (nmL "fs") (s "pick") .load,
+      .other (s "match_case") [.other (s "MatchAs") [], stmt callCb]]] = [(s "cb", none)] ∧
+    walkFn rootCb (prm ["v", "fs"]) [.other (s "Match") [.attr (nmL "fs") (s "pick") .load,
+      .other (s "match_case") [.other (s "MatchAs") [], stmt callCb]]] = [(s "cb", some cbSym)] ∧
+    -- class cb: pass  /  return cb(v)
+    walkFn rootNo (prm ["v"]) [.classDef (s "cb"), .ret [callCb]] = [(s "cb", none)] ∧
+    walkFn rootCb (prm ["v"]) [.classDef (s "cb"), .ret [callCb]] = [(s "cb", some cbSym)] := by
+  refine ⟨?_, ?_, ?_, ?_, ?_, ?_⟩ <;> decide +kernel
+
+def goSym : Sym := fnSym "cb.go" ["r"]
+/-- DEFECT CLASS (dotted call through a parameter): `def host(cb, v): return cb.go(v)` — a module-level
+`class cb` with a static method `go` puts TWO names into the module scope, `cb` and `cb.go`; the
+parameter hides the first only (the theorems above: the two scopes must agree on every name that is
+not a parameter), the dotted name is looked up as a whole, so the static method becomes the target. -/
+theorem C05_cex_static_method_through_parameter :
+    walkFn rootNo (prm ["cb", "v"]) [.ret [.call (.attr (nmL "cb") (s "go") .load) [nmL "v"] [] []]] = [(s "cb.go", none)] ∧
+    walkFn [[(s "cb", { kind := .cls, name := s "cb", callable := true, iface := some (prm ["self"]).iface }),
+             (s "cb.go", goSym)]] (prm ["cb", "v"])
+      [.ret [.call (.attr (nmL "cb") (s "go") .load) [nmL "v"] [] []]] = [(s "cb.go", some goSym)] := by
+  refine ⟨?_, ?_⟩ <;> decide +kernel
 
 end Rattr.C05
